@@ -23,6 +23,38 @@ CHECKS = {
 CHECKS['C16'] = dict(cat='model_checking', tech='bounded model checking of the real zeroising Drop / Zeroize code (Kani/CBMC, SAT) for every content and read-back position, plus a dataflow skeleton of the derived Drop bodies extracted from the MIR',
    text='Kani executes the real volatile-write erasure of R, T, [u8;32], [u8;64] and [T;2] for every content and proves every element zero afterwards; the E2 skeleton of the derived Drop/Zeroize bodies of PrivateKey, PublicKey, R, T shows that every field of each struct is handed to a zeroising call on the single path of Drop (so a #[zeroize(skip)] or a removed derive is reported). The monolithic PrivateKey<1,1> / PublicKey<1,1> drop harnesses run in the thorough tier.',
    note='only the inline-asm optimisation barrier is stubbed; zeroize crate AssertZeroize forwarding trusted; real (K,L) by genericity.', ref='DESIGN.md §5 C16')
+
+_SK = 'E2 dataflow skeleton of the real MIR (calls uninterpreted) unified with the FIPS 204 call sequence + SMT decision/closure lemmas'
+CHECKS['C01'] = dict(cat='model_checking', tech='compositional: Kani/CBMC lemmas on the real hint kernels over the whole coefficient domain + ' + _SK,
+   text='Completeness is decided link by link: hint duality (HighBits stable under the first test; UseHint(MakeHint) = HighBits with the exact call shapes of sign/verify) by Kani for every coefficient and all three sets; identical mu and commitment transcripts, accept-path conditions and UseHint/w1Encode wiring on both sides by the skeleton obligations (unbounded in K, L, lengths); codec round trip C08; key provenances C09/C11. The composition itself is pen and paper and stated.',
+   note='hash = oracle; algebra (w\'approx = w - cs2 + ct0) = C18; one loop iteration from an arbitrary kappa.', ref='DESIGN.md §5 C01')
+CHECKS['C02'] = dict(cat='translation_validation', tech=_SK + '; wrappers by Kani/CBMC',
+   text='verify_internal is validated against Algorithm 8: on every path the call sequence and the provenance of every argument equal the algorithm (three message formattings), early exits return false, the result is equivalent to [[||z|| < gamma1-beta]] and [[c~ = c~\']] (SMT), the two per-coefficient closures equal their FIPS formulas for every coefficient (SMT); the public wrappers are validated against Algorithms 3 and 5 by Kani. Unbounded in K, L, message and context length.',
+   note='hashes and NTT algebra uninterpreted (oracles / C18); decoders C08; kernels C15.', ref='DESIGN.md §5 C02')
+CHECKS['C03'] = dict(cat='translation_validation', tech=_SK + '; wrappers by Kani/CBMC',
+   text='sign_internal is validated against Algorithm 7: prefix (mu in three modes, rho\'\' = H(K||rnd||mu), kappa = 0) and one loop iteration from an arbitrary kappa (call sequence, argument provenance, the three path classes taken exactly under the FIPS rejection predicates and exhaustive, kappa += l on both rejections, sigEncode(c~, z mod+- q, h) on accept), closures equal FIPS formulas (SMT); wrappers (one 32-byte draw = rnd, OID / pre-hash selection) by Kani.',
+   note='samplers and encoders uninterpreted here (C08/C15); kappa wrap-around outside.', ref='DESIGN.md §5 C03')
+CHECKS['C04'] = dict(cat='translation_validation', tech=_SK + '; wrappers by Kani/CBMC',
+   text='key_gen_internal is validated against Algorithm 6 (H(xi||k||l) split 32/64/32, ExpandS, ExpandA, t = A s1 + s2 fully reduced, Power2Round, tr = H(pkEncode)), the returned structs hold the prescribed precomputes, closures equal FIPS formulas; try_keygen_with_rng = keygen_from_seed on the drawn bytes (Kani).',
+   note='samplers / Power2Round / pkEncode uninterpreted here (C15/C08).', ref='DESIGN.md §5 C04')
+CHECKS['C05'] = dict(cat='other', tech='bit relevance only: ' + _SK + ' + Kani lemma UseHint(1,r) != UseHint(0,r); hash / lattice part not claimed',
+   text='Only the solver-decidable part: no bit of signature, public key, message or context is ignored by verification and the encodings have no slack. That a changed transcript cannot collide under SHAKE256, or a changed z give the same w1\', is not claimed.',
+   note='see coverage.explanation in the evidence.', ref='DESIGN.md §5 C05')
+CHECKS['C06'] = dict(cat='model_checking', tech='SMT (z3 sequence theory) injectivity of the formatted message for byte strings of every length + ' + _SK + ' + Kani wrappers (OID / digest)',
+   text='The shape of M\' absorbed by both signer and verifier is extracted from the MIR (dom, one length byte, ctx, then M or OID||PH(M)); z3 decides for byte strings of unbounded length that this formatting is injective for |ctx| <= 255 and that pure / pre-hash modes and the three pre-hash functions are pairwise disjoint; Kani decides OID and digest-length selection on the real hash_message.',
+   note='binding of the signature to M\' rests on SHAKE256 (oracle).', ref='DESIGN.md §5 C06')
+CHECKS['C08'] = dict(cat='model_checking', tech='bounded model checking of the real codecs (Kani/CBMC, SAT) against spec-literal Algorithms 16-21; per-loop unwind bounds from cbmc --show-loops',
+   text='Hint decoder (reduced K=2, omega=8, same generic code): for every value of both count bytes and a 4-byte index window the real HintBitUnpack agrees with Algorithm 21 (accept/reject and decoded hint). Coefficient codecs: for every byte string of a polynomial BitUnpack equals the FIPS bit formula and BitPack reproduces the bytes (t1; thorough: t0, z); adjacent in-range coefficient pairs round-trip at every position (eta, w1 ranges). A native differential at the real (K, omega) confirms counterexamples.',
+   note='quick tier runs a seed-selected subset (each harness costs 7-17 min of CBMC); thorough runs all incl. exhaustive K=2, omega=4.', ref='DESIGN.md §5 C08')
+CHECKS['C09'] = dict(cat='model_checking', tech=_SK + ' for expand_* / into_bytes + closure lemmas; composition with C18 / C08',
+   text='The deserialise / serialise paths are shown to be decode; NTT; to_mont and mont_reduce; invNTT; re-centre / >> d; encode with the right fields, and each per-coefficient step is inverted exactly (SMT, every coefficient value, incl. t1 = 1023).',
+   note='transform inversion and codec bijectivity are C18 / C08 / C10 obligations.', ref='DESIGN.md §5 C09')
+CHECKS['C11'] = dict(cat='translation_validation', tech=_SK + ' for private_to_public_key vs key_gen_internal',
+   text='private_to_public_key is validated against the t1 pipeline of KeyGen (same call sequence modulo leaving Montgomery form), rho and tr are copied from the private key, and every closure equals its formula for every coefficient value in the range its producer guarantees.',
+   note='algebra uninterpreted (C18); counterexamples confirmed natively by a directed seed search.', ref='DESIGN.md §5 C11')
+CHECKS['C13'] = dict(cat='model_checking', tech='panic-site inventory of the checked MIR (E2 skeleton, SMT per site under callee contracts) + native hostile-input workload as replay vehicle',
+   text='Every panic / assert site in the bodies of the big functions and public wrappers is enumerated from the checked MIR and shown unreachable under the concrete parameters and callee contracts; sites inside kernels, closures, codecs and transforms are obligations of C15 / C18 / C08 / C10.',
+   note='samplers are covered by the native workload only.', ref='DESIGN.md §5 C13')
 NA = [
  ('C14', 'whole-pipeline branch/address trace equality needs the compiled artefact executed through real SHAKE for all RNG outputs; no binary/LLVM-level symbolic executor is available and MIR-level control flow is stricter than the binary (Ord::max, abs_diff) - outside solver-based checking of the source here'),
  ('C17', 'quantifies over 28 cargo feature configurations whose observable is rustc\'s exit status and a known-answer digest; cfg resolution happens before any MIR exists, so there is no symbolic variable for a solver - deciding it means enumerating concrete builds'),
